@@ -36,6 +36,7 @@ def build():
 
     repo = Repo()
     reg = Registry()
+    reg.repo = repo    # contracts that are generated from the class table (e.g. one unit per slot class)
     call.register(reg)
     ex = Executor(repo, reg)
     call.install(ex)
